@@ -19,6 +19,7 @@ type c05Shape struct {
 	generates bool
 	status    bool
 	included  bool   // the task is defined in an included Taskfile (same directory) and called as inc:build
+	gen2      bool   // a second generates entry (out2.txt)
 	genOnce   bool   // the command writes the generated file only when it is missing (its mtime is not refreshed)
 	depGen    bool   // a dependency (re)generates one of the matched sources from seed.txt
 	excl      string // where the exclude entry sits: "after" (documented use) | "before" (excluded files are re-included by the later pattern)
@@ -32,7 +33,11 @@ func (sh c05Shape) taskfile() string {
 		s += "      - 'src/**/*.txt'\n      - exclude: 'src/skip/**/*.txt'\n"
 	}
 	if sh.generates {
-		s += "    generates: ['out.txt']\n"
+		if sh.gen2 {
+			s += "    generates: ['out.txt', 'out2.txt']\n"
+		} else {
+			s += "    generates: ['out.txt']\n"
+		}
 	}
 	if sh.depGen {
 		s += "    deps: [gen]\n"
@@ -45,6 +50,9 @@ func (sh c05Shape) taskfile() string {
 		s += "      - 'test -f out.txt || echo built > out.txt'\n"
 	} else if sh.generates {
 		s += "      - 'echo built > out.txt'\n"
+		if sh.gen2 {
+			s += "      - 'echo built > out2.txt'\n"
+		}
 	}
 	if sh.depGen {
 		s += "  gen:\n    cmds:\n      - 'cp seed.txt src/g.txt'\n"
@@ -191,6 +199,9 @@ func c05Events(sh c05Shape) []hEvent {
 	}
 	if sh.generates {
 		evs = append(evs, fe("rm-out", exists("out.txt"), true, func(d string) { os.Remove(filepath.Join(d, "out.txt")) }))
+		if sh.gen2 {
+			evs = append(evs, fe("rm-out2", exists("out2.txt"), true, func(d string) { os.Remove(filepath.Join(d, "out2.txt")) }))
+		}
 	}
 	if sh.depGen {
 		evs = append(evs, fe("edit-seed", nil, true, func(d string) { toggle(filepath.Join(d, "seed.txt")) }))
@@ -215,6 +226,11 @@ func c05Events(sh c05Shape) []hEvent {
 			if sh.generates {
 				_, err := os.Stat(filepath.Join(dir, "out.txt"))
 				genMissingBefore = err != nil
+				if sh.gen2 {
+					if _, err2 := os.Stat(filepath.Join(dir, "out2.txt")); err2 != nil {
+						genMissingBefore = true
+					}
+				}
 			}
 			_, se, rc := RunCLI(dir, nil, "", args...)
 			ran := len(traceOf(dir)) > n0
@@ -286,6 +302,7 @@ func c05Units(tier string) []*Unit {
 			c05Shape{name: "dep-regenerates-source", method: m, depGen: true, excl: "after"},
 			c05Shape{name: "generates-written-once", method: m, generates: true, genOnce: true, excl: "after"},
 			c05Shape{name: "in-included-taskfile", method: m, generates: true, included: true, excl: "after"},
+			c05Shape{name: "two-generates", method: m, generates: true, gen2: true, excl: "after"},
 		)
 	}
 	var us []*Unit
